@@ -200,6 +200,19 @@ func main() {
 		dbt.AliasScenarios(e)
 		flush(e)
 		e.Close()
+		// random histories with every argument and result overwritten after every call
+		nh, nc := 6, 25
+		if len(os.Args) > 5 {
+			nh, _ = strconv.Atoi(os.Args[4])
+			nc, _ = strconv.Atoi(os.Args[5])
+		}
+		for h := 0; h < nh; h++ {
+			eh := mk()
+			eh.Hist = 100 + h
+			dbt.AliasHistory(eh, nc)
+			flush(eh)
+			eh.Close()
+		}
 	case "ttl":
 		tmp, err := os.MkdirTemp("", "dbt-ttl-")
 		if err != nil {
